@@ -27,15 +27,16 @@ def main():
             rc, o = sh(['git', 'apply', hook], cwd=scratch)
             meta['demo_hook'] = 'applied' if rc == 0 else 'did not apply: ' + o[:200]
         run_pat = 'Demo'
-        rc0, o0 = sh(['go', 'test', '-vet=off', '-count=1', '-run', run_pat, '.'], cwd=scratch, timeout=900)
+        race = ['-race'] if os.environ.get('SEEDTEST_RACE') else []
+        rc0, o0 = sh(['go', 'test'] + race + ['-vet=off', '-count=1', '-run', run_pat, '.'], cwd=scratch, timeout=900)
         meta['demo_without_change'] = 'pass' if rc0 == 0 else 'FAIL'
         rc, o = sh(['git', 'apply', os.path.join(src, 'patch.diff')], cwd=scratch)
         assert rc == 0, 'patch does not apply: ' + o
         rc, o = sh(['go', 'build', './...'], cwd=scratch)
         meta['builds'] = rc == 0
-        rc1, o1 = sh(['go', 'test', '-vet=off', '-count=1', '-run', run_pat, '.'], cwd=scratch, timeout=900)
+        rc1, o1 = sh(['go', 'test'] + race + ['-vet=off', '-count=1', '-run', run_pat, '.'], cwd=scratch, timeout=900)
         meta['demo_with_change'] = 'pass' if rc1 == 0 else 'fail'
-        meta['ran'].append('go test -run %s (demo files: %s): without change %s, with change %s' % (run_pat, demo_names, meta['demo_without_change'], meta['demo_with_change']))
+        meta['ran'].append('go test' + (' -race' if race else '') + ' -run %s (demo files: %s): without change %s, with change %s' % (run_pat, demo_names, meta['demo_without_change'], meta['demo_with_change']))
         for d in demos: os.remove(os.path.join(scratch, os.path.basename(d)))
         if os.path.exists(hook) and meta.get('demo_hook') == 'applied':
             sh(['git', 'apply', '-R', hook], cwd=scratch)
